@@ -14,6 +14,7 @@ pointers; timers/maxuse/threadpool/plugin_data ignored).
 """
 import itertools
 import json
+import os
 
 import numpy as np
 
@@ -343,6 +344,10 @@ def run(ctx):
     N.cmp_for(lib)
     _init_enums()
     jobs = make_jobs(ctx)
+    sub = int(os.environ.get("VERIF_SUBSAMPLE", "1") or 1)      # debugging aid (mutation trials): every k-th job only
+    if sub > 1:
+        jobs = jobs[::sub]
+        ctx.exhaustive = False
     core.pmap(ctx, _chunk, jobs, nchunks=min(len(jobs), core.NCPU * 8))
     ctx.extra["models"] = len(jobs)
     ctx.rule = ("all rooted ordered forests with <=3 bodies (8 shapes) x covering joint assignments from %s (40 kinematic models) x "
